@@ -139,6 +139,16 @@ pub fn take_triple(t: (Uniq, &str, Uniq)) -> String {
     x
 }
 
+/// two traits of one module with a SAME-NAMED method-generic method: two distinct MockFns
+#[unimock(api=R1Mock)]
+pub trait R1 {
+    fn get<X: 'static>(&self, a: u8) -> Val;
+}
+#[unimock(api=R2Mock)]
+pub trait R2 {
+    fn get<X: 'static>(&self, a: u8) -> Val;
+}
+
 #[unimock(api=GMock)]
 pub trait G<X> {
     fn g(&self, a: u8) -> Val;
